@@ -47,7 +47,7 @@ REQUIRED = [
     'EdbVerif.C19.C19_reject', 'EdbVerif.C19.C19_json', 'EdbVerif.C19.C19_json_invariant',
     'EdbVerif.C19.C19_json_reachable', 'EdbVerif.C19.duration_rt',
     'EdbVerif.C19.memory_rt', 'EdbVerif.C19.memory_rt_negative_counterexample',
-    'EdbVerif.C19.C19_rem_noop_masks_counterexample',
+    'EdbVerif.C19.C19_seq_rem_noop', 'EdbVerif.C19.memory_edgeql_rt', 'EdbVerif.C19.duration_needs_digit',
 ]
 
 SAFE = 'abcXYZ019 _./:-'
@@ -793,6 +793,15 @@ def run_sequence(env, real, ops, ctx, stats, tag):
         # (coerce_value, then apply, then persistence) gives the same storage as a plain apply
         purity_oracles(env, ctx, op_obj, value, before, res, after if res == 'ok' else None,
                        ops[:idx + 1], stats)
+        # S: a bool given for an int-typed FIELD of an object must not be accepted (open finding:
+        # from_pyvalue still uses isinstance(value, int))
+        if res == 'ok' and code in ('SET', 'ADD') and name in env.spec and \
+                isinstance(env.spec[name].type, env.types.ConfigTypeSpec):
+            hit = bool_in_int_field(env, env.spec[name].type, value)
+            if hit:
+                ctx.fail('accepts-invalid:bool-for-int-field',
+                         f'from_pyvalue accepted a bool for the int field {hit!r} of an object',
+                         {'ops': ops[:idx + 1]})
         # S: independent validity of SET values for the plain kinds
         if code == 'SET' and name in PLAIN:
             valid = plain_valid(name, value)
@@ -888,6 +897,79 @@ def secret_probe(env, ctx):
     out['to_edgeql(with_secrets=False) prints the outer object without the required secret field'] = \
         'insert' in texts['to_edgeql(with_secrets=False)'] and 'pw' not in texts['to_edgeql(with_secrets=False)']
     return out
+
+
+def upstream_text_lists():
+    """the `valid` / `invalid` text lists of upstream's tests/test_edgeql_datatypes.py
+    (test_edgeql_staeval_duration_01 / _memory_01; the tests themselves need a live server:
+    only their offline half – statypes must parse `valid` and reject `invalid` – runs here)"""
+    import ast
+    path = os.path.join(core.REPO, 'tests', 'test_edgeql_datatypes.py')
+    out = {}
+    try:
+        tree = ast.parse(open(path).read())
+    except OSError:
+        return out
+    for node in ast.walk(tree):
+        if isinstance(node, (ast.AsyncFunctionDef, ast.FunctionDef)) and \
+                node.name in ('test_edgeql_staeval_duration_01', 'test_edgeql_staeval_memory_01'):
+            kind = 'duration' if 'duration' in node.name else 'memory'
+            for st in node.body:
+                if isinstance(st, ast.Assign) and len(st.targets) == 1 and isinstance(st.targets[0], ast.Name) \
+                        and st.targets[0].id in ('valid', 'invalid') and isinstance(st.value, ast.List):
+                    try:
+                        out[(kind, st.targets[0].id)] = [ast.literal_eval(e) for e in st.value.elts]
+                    except ValueError:
+                        pass
+    return out
+
+
+def regression_witnesses(env, ctx):
+    """the inputs of the four repaired findings (fix commits in /repo) as hard checks"""
+    E = env.immutables.Map()
+
+    def ap(code, scope, name, val, m):
+        return env.ops.Operation(env.ops.OpCode(code), env.qltypes.ConfigScope(scope), name,
+                                 json.loads(json.dumps(val))).apply(env.spec, m)
+
+    def bad(commit, key, what, detail):
+        ctx.fail(f'regression:{commit}:{key}', what, detail)
+    # 9cae9a4: a filtered RESET that removes nothing must not mask less specific scopes
+    wit = [['ADD', 'INSTANCE', 'objs', {'database': 'a', 'port': 1}], ['REM', 'SESSION', 'objs', {'database': 'zzz'}]]
+    try:
+        inst = ap(*wit[0], E)
+        sess = ap(*wit[1], E)
+        before = env.config.lookup('objs', E, E, inst, spec=env.spec)
+        after = env.config.lookup('objs', sess, E, inst, spec=env.spec)
+        if len(sess) != 0 or canon_val(env.enc_val_for('objs', before)) != canon_val(env.enc_val_for('objs', after)):
+            bad('9cae9a4', 'rem-noop-mask', 'a REM that removed nothing stored an entry / changed the effective value',
+                {'ops': wit})
+    except Exception as e:     # noqa: BLE001
+        bad('9cae9a4', 'rem-noop-mask', f'witness raised {exc_name(e)}', {'ops': wit})
+    # a93d1c2: cfg::memory values in to_edgeql
+    wit = [['SET', 'SESSION', 'mem', '5MiB']]
+    try:
+        t = env.ops.to_edgeql(env.spec, ap(*wit[0], E), True)
+        if t != "CONFIGURE SESSION SET mem := <cfg::memory>'5MiB';":
+            bad('a93d1c2', 'memory-edgeql', f'unexpected text {t!r}', {'ops': wit})
+    except Exception as e:     # noqa: BLE001
+        bad('a93d1c2', 'memory-edgeql', f'to_edgeql raised {exc_name(e)} for a memory value', {'ops': wit})
+    # 7df602b: bool for an int setting
+    for wit in ([['SET', 'SESSION', 'i', True]], [['SET', 'SESSION', 'ints', [1, False]]]):
+        try:
+            ap(*wit[0], E)
+            bad('7df602b', 'bool-for-int', 'a bool was accepted for an int setting', {'ops': wit})
+        except Exception:     # noqa: BLE001 – rejected: fine
+            pass
+    # 44d9781: duration texts without any component
+    D = env.statypes.Duration
+    for t in ('', '\n', 'PT', '\n\n'):
+        for f, nm in ((D, 'Duration'), (D.from_iso8601, 'from_iso8601')):
+            try:
+                f(t)
+                bad('44d9781', 'duration-empty', f'{nm}({t!r}) was accepted', {'text': t})
+            except Exception:     # noqa: BLE001 – rejected: fine
+                pass
 
 
 def only_gained_tname(orig, now):
@@ -1040,6 +1122,39 @@ def exclusive_clashes(objs, cls):
 PLAIN = {'b': bool, 'i': int, 's': str, 'ints': int, 'strs': str}
 
 
+def bool_in_int_field(env, tspec, value):
+    """'Type.field' of the first int (or frozenset[int]) field of an object value that is given a bool"""
+    from edb.common import typing_inspect
+    vals = value if isinstance(value, list) else [value]
+    for v in vals:
+        if not isinstance(v, dict):
+            continue
+        t = tspec
+        tn = v.get('_tname')
+        if isinstance(tn, str):
+            try:
+                t = env.spec.get_type_by_name(tn)
+            except KeyError:
+                continue
+        for fname, fv in v.items():
+            f = t.fields.get(fname)
+            if f is None:
+                continue
+            ft = f.type
+            if ft is int and isinstance(fv, bool):
+                return f'{t.name}.{fname}'
+            if typing_inspect.is_generic_type(ft) and not isinstance(ft, type) and \
+                    typing_inspect.get_args(ft, evaluate=True)[0] is int:
+                items = fv if isinstance(fv, (list, dict)) else [fv]
+                if any(isinstance(x, bool) for x in items):
+                    return f'{t.name}.{fname}'
+            if isinstance(ft, env.types.ConfigTypeSpec) and isinstance(fv, dict):
+                hit = bool_in_int_field(env, ft, fv)
+                if hit:
+                    return hit
+    return None
+
+
 def plain_valid(name, value, bool_is_int=False):
     """is `value` a value of the type of the plain setting `name`?  (`bool_is_int`: Python's view,
     in which True/False are ints)"""
@@ -1104,6 +1219,10 @@ def run(ctx: core.Ctx):
     ctx.log('proof stage:', 'ok' if proved else ctx.proof['broken'][:5])
 
     spec_line = 'spec ' + json.dumps(env.spec_json())
+
+    # ------------------------------------------------ repaired findings: regression witnesses first
+    if not ctx.replay:
+        regression_witnesses(env, ctx)
 
     # ------------------------------------------------ stream 1: op sequences
     seqs = []
@@ -1235,6 +1354,22 @@ def run(ctx: core.Ctx):
             iso_texts.append(gen_dur_text(rng))
         for _ in range(ctx.budget(5000, 100000)):
             mem_texts.append(gen_mem_text(rng))
+    upstream = {} if ctx.replay else upstream_text_lists()
+    for (kind, verdict), texts in sorted(upstream.items()):
+        ctor = D if kind == 'duration' else M
+        for t in texts:
+            if not isinstance(t, str) or not t.isascii():
+                continue
+            (dur_texts if kind == 'duration' else mem_texts).append(t)
+            try:
+                ctor(t)
+                ok = True
+            except Exception:     # noqa: BLE001
+                ok = False
+            if ok != (verdict == 'valid'):
+                ctx.fail(f'upstream:{kind}-{verdict}:{t!r}',
+                         f'upstream test list says {t!r} is {verdict} for {kind}, statypes ' +
+                         ('accepts' if ok else 'rejects') + ' it', {'text': t})
     for us in sorted(vals):
         d = D(microseconds=us)
         iso = d.to_iso8601()
@@ -1385,7 +1520,8 @@ def run(ctx: core.Ctx):
         'step_outcomes': {'ok_by_opcode': stats['ok'], 'rejections_by_exception_class': stats['err'],
                           'rejections_not_EdgeDBError (observation; opcode:kind:class)': stats['non_edgedb']},
         'edgeql_texts_compared': len(eq_lines), 'damaged_json_docs': len(fj_lines),
-        'duration_memory_cases': len(dm_lines), 'duration_memory_outcomes': dm_hist,
+        'duration_memory_cases': len(dm_lines),
+        'upstream_text_lists': {f'{k[0]}-{k[1]}': len(v) for k, v in upstream.items()}, 'duration_memory_outcomes': dm_hist,
         'disagreements_model_vs_impl': n_dis,
         'edgeql_replay_level2': l2,
         'nested_secret_probe': secret_probe(env, ctx) if not ctx.replay else None,
@@ -1600,6 +1736,9 @@ class Level2:
             return rng.choice(TRICKY) if rng.random() < 0.7 else safe_str(rng)
         if k == 'str-set':
             return [rng.choice(TRICKY) for _ in range(rng.randint(0, 4))]
+        if k == 'memory':
+            # non-negative only: a negative int is still accepted and does not read back (open finding)
+            return rng.choice(['0', '5MiB', '1KiB', '1023B', 1024, 0, 3 * 2 ** 30, 2 ** 50, rng.randint(0, 2 ** 40)])
         if k == 'duration':
             us = rng.choice([0, 1, -1, 10 ** 6, -3600500001, 59999999, 2 ** 63 - 1, -2 ** 63,
                              rng.randint(-2 ** 63, 2 ** 63 - 1), rng.randint(-10 ** 10, 10 ** 10)])
@@ -1620,7 +1759,8 @@ class Level2:
                 return {'name': nm, 'obj': {'_tname': 'cfg::Subclass' + sub_, 'name': rng.choice(['o1', 'o2']),
                                             'sub' + sub_: rng.choice(['s', 't'])}}
             return {'_tname': 'cfg::TestInstanceConfigStatTypes', 'name': nm,
-                    'durprop': rng.choice([None, 'PT5S', 'PT-0.5S', 'PT1H2M3.000004S'])}
+                    'durprop': rng.choice([None, 'PT5S', 'PT-0.5S', 'PT1H2M3.000004S']),
+                    'memprop': rng.choice([None, None, '5MiB', 1024, '0'])}
         if k == 'object:cfg::Auth':
             d = {'priority': rng.choice([0, 1, 2, 3, -1, 10 ** 6])}
             if rng.random() < 0.6:
@@ -1653,8 +1793,6 @@ class Level2:
         for n in self.spec:
             s = self.spec[n]
             k = self.kind(n)
-            if k.startswith('memory'):
-                continue            # to_edgeql cannot print memory values (separate finding)
             if s.system and scope != 'INSTANCE':
                 continue
             if k.startswith('object:') and scope == 'SESSION':
